@@ -102,6 +102,10 @@ def gen_spec(rng, d: int, kinds: dict | None = None, small: bool = False) -> dic
                 s["values"].append(v())
         if rng.random() < 0.2 and (s.get("times") is None or (s["times"][0] == 0.0 and s["times"][-1] == 1.0)):
             s["interpolator"] = "interp1d"
+            npts = len(s["values"])
+            kinds = ["linear", "nearest", "previous", "next"] + (["quadratic"] if npts >= 3 else []) + (["cubic"] if npts >= 4 else [])
+            if rng.random() < 0.6:
+                s["kwargs"] = {"kind": kinds[rng.randrange(len(kinds))]}
         return s
     n = rng.randint(2, 3) if d >= 3 else 2
     if d < 2:
@@ -347,6 +351,31 @@ def check_ops(ctx, rng, s: dict, w, x: np.ndarray) -> None:
         ctx.violation("div-zero", f"{cls} / 0 returned instead of raising", f"div-zero-accepted:{cls}")
     except Exception:
         pass
+    if cls == "CustomWaveform" and len(x) >= 2:
+        # element-wise factors: a divisor array containing a zero must be refused (never non-finite samples)
+        arr_ = np.array([rng.choice([1.0, 2.0, -0.5, 4.0]) for _ in x])
+        try:
+            y = samples_of(w * arr_)
+            ctx.count("scaling_checked")
+            if float(np.max(np.abs(y - arr_ * x))) > 1e-9 * 4 * mx:
+                ctx.violation("scaling", "CustomWaveform * array: samples are not the element-wise product", "scale:CustomWaveform:mul-array")
+            y = samples_of(w / arr_)
+            ctx.count("scaling_checked")
+            if float(np.max(np.abs(y - x / arr_))) > 1e-9 * 4 * mx:
+                ctx.violation("scaling", "CustomWaveform / array: samples are not the element-wise quotient", "scale:CustomWaveform:div-array")
+        except Exception as e:
+            ctx.violation("scaling", f"CustomWaveform with an array factor raised {type(e).__name__}: {str(e)[:120]}",
+                          "scale-raises:CustomWaveform:array")
+        z = arr_.copy()
+        z[rng.randrange(len(z))] = 0.0
+        ctx.count("div_zero_checked")
+        try:
+            y = samples_of(w / z)
+            ctx.violation("div-zero", f"CustomWaveform / (array with a zero entry) returned "
+                          f"{'non-finite' if not np.all(np.isfinite(y)) else 'finite'} samples instead of raising",
+                          "div-zero-accepted:CustomWaveform:array")
+        except Exception:
+            pass
 
 
 def check_eq(ctx, rng, s: dict, w, x: np.ndarray) -> None:
@@ -448,6 +477,18 @@ def check_change_duration(ctx, rng, s: dict, w) -> None:
     if x2 is None:
         return
     ctx.count("change_duration_checked")
+    # "changing the duration preserves the defining parameters": same samples as the waveform built directly with the
+    # same parameters at the new duration
+    if s["k"] in ("const", "ramp", "blackman", "kaiser", "interp") and not has_collision(s2):
+        try:
+            x3 = samples_of(build(s2))
+            ctx.count("change_duration_vs_direct")
+            if len(x3) != len(x2) or not np.allclose(x2, x3, rtol=1e-9, atol=1e-9 * max(1.0, float(np.max(np.abs(x3))))):
+                ctx.violation("change-duration", f"{cls}.change_duration({nd}) differs from {cls} built with the same parameters "
+                              f"at that duration (spec {dict((k_, v_) for k_, v_ in s.items() if k_ != 'values')})",
+                              f"change-duration:{cls}:vs-direct")
+        except Exception:
+            ctx.gray("direct-construction-at-new-duration-raised")
     before = ctx.counters.get("violation:closed-form", 0) + ctx.counters.get("violation:area", 0)
     check_closed_form(ctx, s2, w2, x2)
     if s["k"] == "kaiser" and float(getattr(w2, "_beta", s.get("beta", 14.0))) != float(s.get("beta", 14.0)):
